@@ -3,6 +3,7 @@ package c04
 import (
 	"fmt"
 	"os"
+	"strings"
 	"testing"
 )
 
@@ -70,6 +71,96 @@ func TestDevProbe(t *testing.T) {
 		}
 		if len(w2) > 0 {
 			fmt.Println("   BLOCK DIFF", d2)
+		}
+	}
+}
+
+func TestDevNatives(t *testing.T) {
+	if os.Getenv("C04_DEV") != "natives" {
+		t.Skip()
+	}
+	w, err := buildWorld(false, 0)
+	if err != nil {
+		t.Fatal(err)
+	}
+	rg, err := w.newRig()
+	if err != nil {
+		t.Fatal(err)
+	}
+	defer rg.close()
+	fmt.Println("hardforks:", rg.n.BC.GetConfig().Hardforks)
+	for _, c := range rg.n.BC.GetNatives() {
+		cs := rg.n.BC.GetContractState(c.Hash)
+		if cs == nil {
+			fmt.Println(c.Manifest.Name, "NOT ACTIVE")
+			continue
+		}
+		for _, m := range cs.Manifest.ABI.Methods {
+			if !m.Safe {
+				var ps []string
+				for _, p := range m.Parameters {
+					ps = append(ps, p.Name+":"+p.Type.String())
+				}
+				fmt.Printf("%s.%s(%v) %s\n", cs.Manifest.Name, m.Name, ps, m.ReturnType)
+			}
+		}
+	}
+}
+
+func TestDevNativeCases(t *testing.T) {
+	if os.Getenv("C04_DEV") != "ncases" {
+		t.Skip()
+	}
+	w, err := buildWorld(false, 0)
+	if err != nil {
+		t.Fatal(err)
+	}
+	c := &checker{w: w, rigs: make(chan *rig, 64), class: map[string]int{}}
+	rg, _ := c.getRig()
+	if err := c.checkSpecTable(rg); err != nil {
+		fmt.Println("TABLE:", err)
+	}
+	c.putRig(rg)
+	cases, na := nativeCases()
+	fmt.Println(len(cases), "cases; n/a:", na)
+	filter := os.Getenv("C04_CASE")
+	type res struct {
+		name string
+		out  string
+	}
+	ch := make(chan res, len(cases))
+	sem := make(chan struct{}, 16)
+	n := 0
+	for _, cs := range cases {
+		if filter != "" && !strings.Contains(cs.name(), filter) {
+			continue
+		}
+		n++
+		cs := cs
+		go func() {
+			sem <- struct{}{}
+			defer func() { <-sem }()
+			nr := &nrun{c: c}
+			var what, detail []string
+			var err error
+			if p := chainxTry(func() { what, detail, err = nr.run(cs) }); p != nil {
+				err = p
+			}
+			o := "ok"
+			if err != nil {
+				o = "HARNESS " + err.Error()
+			} else if len(what) > 0 {
+				o = fmt.Sprint("DIFF ", what, detail)
+			} else if nr.noEffect {
+				o = "ok (setter alone: no observable effect)"
+			}
+			ch <- res{cs.name(), o}
+		}()
+	}
+	for i := 0; i < n; i++ {
+		r := <-ch
+		if r.out != "ok" {
+			fmt.Printf("%s: %.600s\n", r.name, r.out)
 		}
 	}
 }
